@@ -230,6 +230,26 @@ theorem C03_result_instance (g : Gram) (hwf : WF g) (k : Kinds) (R : Nat) (kids 
     exact .refl _
   · exact ⟨Or.inr ⟨h1, h2⟩, (isInstance_iff_path g hwf k o R).mpr h3⟩
 
+/-- `Model: B? C;  B: 'b' x=INT;  C: 'c' y=INT;` -/
+def optGram : Gram := [⟨false, .seq [.other [.ref 1], .ref 2]⟩, ⟨true, .lit⟩, ⟨true, .lit⟩]
+
+/-- **The hypothesis on the tree is needed.**  Without `WfTree` (an abstract rule with an optional
+part, outside the documented fragment) the conclusion of `C03_result_instance` fails, in the model
+and in textX alike: on `c 5` the model is the `C` object, `Model._tx_inh_by` holds `B` only, and
+`textx_isinstance(model, Model)` is false. -/
+theorem C03_result_instance_other_false :
+    WF optGram ∧ ¬ WfTree optGram (kindsOf optGram) (.nt 0 [.nt 2 []]) ∧
+      proc (kindsOf optGram) (.nt 0 [.nt 2 []]) = .obj 2 [] ∧
+      inhBy optGram (kindsOf optGram) 0 = [1] ∧ isInstance optGram (kindsOf optGram) 2 (.rule 0) = false := by
+  have h0 : kindsOf optGram 0 = .abstr := by decide
+  have h2 : kindsOf optGram 2 = .common := by decide
+  refine ⟨by decide, ?_, ?_, by decide, by decide⟩
+  · intro h
+    have := (C03_tree_iff _ _ _).mpr h
+    revert this
+    decide
+  · simp [proc, procFirst, procAttrs, h0, h2]
+
 /-- **Inheritance list, lower bound, all operators.**  Whatever operators the body contains, the
 first non-match reference of every alternative that `FirstNM` describes (alternatives through the
 documented part of the body) is in `_tx_inh_by`. -/
